@@ -710,7 +710,7 @@ pub fn main(args: &[String]) {
     let mut rng = StdRng::seed_from_u64(env_seed() ^ 0x5e2_0e16);
     let mut s = Session { me: vec!["-".to_string(); 3], final_phase: false, ctrl: Ctrl::connect(), jars: vec![None; 3], out: Vec::new(), seq: 0, scen: String::new(), expected_updates: 0, person: Vec::new() };
     happy_path(&mut s);
-    let n = if tier == "thorough" { 220 } else { 28 };
+    let n = if tier == "thorough" { 120 } else { 28 };
     for k in 0..n {
         random_scenario(&mut rng, &mut s, k);
     }
